@@ -12,7 +12,7 @@ RULE = ('failure kinds x {call, notification, inside a batch at each position of
         '{0,1,-1, six standard codes, -32099, 2**70} x messages {"", "m"} x data {absent, null, 0, "", [], {}, nested}; exception '
         'types ValueError, KeyError, TypeError (raised inside the body), AssertionError, RuntimeError, custom subclass, and the non-protocol exceptions of the library itself (validators.ValidationError, DeserializationError, IdentityError), each carrying '
         'a marker string searched for in the response; unknown method; params that do not bind (missing/surplus/unknown, list and '
-        'mapping); invalid request objects; invalid batches; non-JSON and huge-integer texts; both dispatchers. distinct = distinct '
+        'mapping); invalid request objects; invalid batches; non-JSON and huge-integer texts; ONE long-lived error object whose fields are set from the arguments and which is raised again by a later request (every ordered pair over 7 argument triples); both dispatchers, and the asynchronous dispatcher serving plain functions. distinct = distinct '
         '(config, text, kind); non-trivial = the reply carries an error code or the text is JSON')
 EXHAUSTIVE = {'quick': True, 'thorough': True}
 TRUSTED_BASE = ['json.loads as the configured loader (verdict supplied per case)',
@@ -35,6 +35,15 @@ def cfg_exc(tag):
     ms = [{'name': 'f', 'sig': [('a', 'PK', True)], 'ctx': ('none',), 'body': ('exc', tag)},
           {'name': 'ok', 'sig': [('a', 'PK', False), ('b', 'KO', True)], 'ctx': ('none',), 'body': ('env',)}]
     return {'methods': ms, 'mws': [], 'ehs': [], 'max_batch': None}
+
+
+def cfg_shared():
+    ms = [{'name': 'f', 'sig': [('code', 'PK', False), ('message', 'PK', False), ('data', 'PK', True)], 'ctx': ('none',), 'body': ('rpcargs',)},
+          {'name': 'ok', 'sig': [('a', 'PK', False), ('b', 'KO', True)], 'ctx': ('none',), 'body': ('env',)}]
+    return {'methods': ms, 'mws': [], 'ehs': [], 'max_batch': None}
+
+
+SHARED_ARGS = [[7, 'seven'], [7, 'seven', 'U:d1'], [8, 'eight', None], [0, '', {'k': [1]}], [7, 'seven', 'U:d2'], [-5, 'm', 0], [2 ** 40, 'big', []]]
 
 
 def shapes(method, params=corpus.A):
@@ -64,6 +73,16 @@ def generate(seed, tier):
     for tag in range(9):
         for doc in shapes('f'):
             cases.append({'cfg': cfg_exc(tag), 'text': json.dumps(doc)})
+    # one long-lived error object re-raised with other fields: every ordered pair of calls, the first one served (and
+    # answered) before the observed one, as a call / a notification / inside a batch
+    for a1 in SHARED_ARGS:
+        for a2 in SHARED_ARGS:
+            if a1 is a2:
+                continue
+            pre = [json.dumps({'jsonrpc': '2.0', 'method': 'f', 'params': a1, 'id': 0})]
+            docs = list(shapes('f', a2))
+            for doc in (docs[:1] if tier == 'quick' else docs[:3]):
+                cases.append({'cfg': cfg_shared(), 'text': json.dumps(doc), 'pre': pre})
     base = cfg_exc(0)
     for params in ([], [1, 2], {'zz': 1}, {'a': 1, 'zz': 2}, {'b': 1}, [1, 2, 3], {}, None, 'x'):
         for doc in shapes('ok', params):
@@ -90,13 +109,14 @@ def generate(seed, tier):
         cases.append({'cfg': corpus.STD_CFG, 'text': json.dumps([corpus.valid_element(rnd) for _ in range(rnd.choice([1, 2, 3, 4]))])})
     out = []
     for c in cases:
-        for is_async in (False, True):
+        # 'plain': the asynchronous dispatcher serving plain (non-coroutine) functions
+        for is_async in (False, True, 'plain'):
             out.append(dict(c, **{'async': is_async}))
     return out
 
 
 def observe(case):
-    out, events = dispenv.run(case['cfg'], case['async'], case['text'], {'ctx': 7})
+    out, events = dispenv.run(case['cfg'], case['async'], case['text'], {'ctx': 7}, pre=case.get('pre', ()))
     return {'load': dispenv.load_result(case['text']), 'out': out, 'events': events}
 
 
@@ -105,7 +125,7 @@ def encode(case, obs):
 
 
 def case_key(case):
-    return json.dumps([case['cfg'], case['text'][:3000], len(case['text']), case['async']], sort_keys=True, default=repr)
+    return json.dumps([case['cfg'], case['text'][:3000], len(case['text']), case['async'], case.get('pre')], sort_keys=True, default=repr)
 
 
 def distribution(cases, obs):
